@@ -3,7 +3,7 @@
 //!   accept:  "limit=<n> timeout=<ms> | ready:<wid> call poll:<i>:<p|o|e> drop:<i> tick:<ms>"
 //!   trace items: R=ok|pending  C  P=pending|ok|tls|timeout  D  T   each followed by "/w<id>=<wakes during the op>,..."
 use actix_service::{Service, ServiceFactory};
-use actix_tls::accept::{rustls_0_23::{reexports::ServerConfig, Acceptor, AcceptFut}, TlsError};
+use actix_tls::accept::{openssl as ossl, rustls_0_23::{reexports::ServerConfig, Acceptor, AcceptFut}, TlsError};
 use std::{future::Future, io::BufRead, pin::Pin, task::{Context, Poll, RawWaker, RawWakerVTable, Waker}, time::Duration};
 
 static mut WAKES: [u32; 16] = [0; 16];
@@ -17,6 +17,7 @@ fn waker(id: usize) -> Waker {
 type Io = actix_rt::net::TcpStream;
 
 fn run(line: &str) -> String {
+    if line.contains("flavour=openssl") { return run_openssl(line); }
     let (head, sched) = line.split_once('|').unwrap();
     let mut limit = 1usize; let mut timeout = 3000u64;
     for kv in head.split_whitespace() { let (k, v) = kv.split_once('=').unwrap(); match k { "limit" => limit = v.parse().unwrap(), "timeout" => timeout = v.parse().unwrap(), _ => {} } }
@@ -40,6 +41,48 @@ fn run(line: &str) -> String {
             "poll" => {
                 let i: usize = p[1].parse().unwrap();
                 #[allow(static_mut_refs)] unsafe { tokio_rustls::HS[i] = tokio_rustls::Hs { pend: (p[2] == "p") as u8, ok: p[2] == "o" }; }
+                let w = waker(14); let mut cx = Context::from_waker(&w);
+                let res = futs[i].as_mut().unwrap().as_mut().poll(&mut cx);
+                match res {
+                    Poll::Pending => "P=pending".into(),
+                    Poll::Ready(r) => { futs[i] = None; match r { Ok(_) => "P=ok".into(), Err(TlsError::Tls(_)) => "P=tls".into(), Err(TlsError::Timeout) => "P=timeout".into(), Err(_) => "P=other".into() } }
+                }
+            }
+            "drop" => { futs[p[1].parse::<usize>().unwrap()] = None; "D".into() }
+            "tick" => { actix_rt::time::set_now_ms(actix_rt::time::now_ms() + p[1].parse::<u64>().unwrap()); "T".into() }
+            _ => panic!("op"),
+        };
+        #[allow(static_mut_refs)] let after = unsafe { WAKES };
+        let d: Vec<String> = (0..14).filter(|k| after[*k] != before[*k]).map(|k| format!("w{}={}", k, after[k] - before[k])).collect();
+        out.push(format!("{}/{}", r, d.join(",")));
+    }
+    out.join(" ")
+}
+
+fn run_openssl(line: &str) -> String {
+    let (head, sched) = line.split_once('|').unwrap();
+    let mut limit = 1usize; let mut timeout = 3000u64;
+    for kv in head.split_whitespace() { let (k, v) = kv.split_once('=').unwrap(); match k { "limit" => limit = v.parse().unwrap(), "timeout" => timeout = v.parse().unwrap(), _ => {} } }
+    #[allow(static_mut_refs)] unsafe { WAKES = [0; 16]; tokio_openssl::HS_NEXT = 0; }
+    actix_rt::time::set_now_ms(1000);
+    actix_tls::accept::max_concurrent_tls_connect(limit);
+    let mut a = ossl::Acceptor::new(openssl::ssl::SslAcceptor::model());
+    a.set_handshake_timeout(Duration::from_millis(timeout));
+    let w0 = waker(15); let mut cx0 = Context::from_waker(&w0);
+    let mut sf = Box::pin(ServiceFactory::<Io>::new_service(&a, ()));
+    let svc = match sf.as_mut().poll(&mut cx0) { Poll::Ready(Ok(s)) => s, _ => return "INIT-FAILED".into() };
+    let mut futs: Vec<Option<Pin<Box<ossl::AcceptFut<Io>>>>> = Vec::new();
+    let mut out = Vec::new();
+    for op in sched.split_whitespace() {
+        #[allow(static_mut_refs)] let before = unsafe { WAKES };
+        let p: Vec<&str> = op.split(':').collect();
+        let r: String = match p[0] {
+            "ready" => { let w = waker(p[1].parse().unwrap()); let mut cx = Context::from_waker(&w);
+                         match Service::<Io>::poll_ready(&svc, &mut cx) { Poll::Ready(Ok(())) => "R=ok".into(), Poll::Ready(Err(_)) => "R=err".into(), Poll::Pending => "R=pending".into() } }
+            "call" => { futs.push(Some(Box::pin(Service::<Io>::call(&svc, actix_rt::net::TcpStream(7))))); "C".into() }
+            "poll" => {
+                let i: usize = p[1].parse().unwrap();
+                #[allow(static_mut_refs)] unsafe { tokio_openssl::HS[i] = tokio_openssl::Hs { pend: (p[2] == "p") as u8, ok: p[2] == "o" }; }
                 let w = waker(14); let mut cx = Context::from_waker(&w);
                 let res = futs[i].as_mut().unwrap().as_mut().poll(&mut cx);
                 match res {
